@@ -1,6 +1,22 @@
 // harness for gmlc::concurrency::DelayedObjects<long> (C18): int keys 1, 2 and the string key "a" (= key 3)
 #include "gmlc/concurrency/DelayedObjects.hpp"
-using DO = gmlc::concurrency::DelayedObjects<long>;
+// the stored type has a real move: a moved-from Val holds a poison value, so a value moved twice shows up in a future
+struct Val {
+    long v = 0;
+    Val() = default;
+    Val(long x): v(x) {}
+    Val(const Val&) = default;
+    Val& operator=(const Val&) = default;
+    Val(Val&& o) noexcept: v(o.v) { o.v = -9; }
+    Val& operator=(Val&& o) noexcept
+    {
+        v = o.v;
+        o.v = -9;
+        return *this;
+    }
+    operator long() const { return v; }
+};
+using DO = gmlc::concurrency::DelayedObjects<Val>;
 
 int main(int argc, char** argv)
 {
@@ -16,7 +32,7 @@ int main(int argc, char** argv)
         }
         struct Tab {
             bool claimed[4] = {false, false, false, false};
-            std::shared_future<long> fut[4];
+            std::shared_future<Val> fut[4];
             bool has[4] = {false, false, false, false};
         };
         auto tab = std::make_shared<Tab>();
@@ -52,15 +68,15 @@ int main(int argc, char** argv)
                                 tab->has[k] = true;
                             }
                         } else if (kd == 1) {
-                            const long v = val;
+                            const Val v = val;
                             if (k == 3) D->setDelayedValue(std::string("a"), v);
                             else D->setDelayedValue(k, v);
                         } else if (kd == 2) {
-                            long v = val;
+                            Val v = val;
                             if (k == 3) D->setDelayedValue(std::string("a"), std::move(v));
                             else D->setDelayedValue(k, std::move(v));
                         } else if (kd == 3) {
-                            D->fulfillAllPromises(val);
+                            D->fulfillAllPromises(Val(val));  // an rvalue: every pending promise must still get the value
                         } else if (kd == 4) {
                             if (k == 3) D->finishedWithValue(std::string("a"));
                             else D->finishedWithValue(k);
